@@ -69,6 +69,12 @@ impl Write for Sink {
             }
         }
     }
+    /// vectored writes: the same answers, counted over all slices together (a partial vectored
+    /// write may end inside any slice)
+    fn write_vectored(&mut self, bufs: &[std::io::IoSlice<'_>]) -> std::io::Result<usize> {
+        let flat: Vec<u8> = bufs.iter().flat_map(|b| b.iter().copied()).collect();
+        self.write(&flat)
+    }
     fn flush(&mut self) -> std::io::Result<()> {
         Ok(())
     }
@@ -151,6 +157,12 @@ fn subjects(ctx: &Ctx, env: &Env) -> Vec<Subject> {
         let sig = RawHeader::new(vec![RawEntry { tag: 1004, ty: 7, offset: 0, count: len as u32 }], (0..len as u8).collect());
         let main = RawHeader::layout(&[(1000, Val::str("n")), (1003, Val::Int32(vec![7])), (1004, Val::i18n(&["s"]))]);
         add(format!("hand-encoded-pad{}", pad), assemble(&RawLead::new("n"), &sig, 0, &main, b"payload").0);
+    }
+    // main headers (without a region trailer at the end) whose store ends with each kind of data
+    for (nm, last) in [("string", Val::str("last-string")), ("binary", Val::Bin(vec![1, 2, 3, 4, 5])), ("int32", Val::Int32(vec![1, 2])), ("string-array", Val::strs(&["x", "yz"]))] {
+        let main = RawHeader::layout(&[(1003, Val::Int32(vec![7])), (1004, Val::i18n(&["s"])), (1000, last)]);
+        let sig = RawHeader::new(vec![], vec![]);
+        add(format!("hand-encoded-store-ends-with-{}", nm), assemble(&RawLead::new("n"), &sig, 0, &main, b"pay").0);
     }
     v
 }
@@ -259,7 +271,7 @@ pub fn run(ctx: &Ctx) -> i32 {
     ));
 
     // ---- (3) writing: deviation-bounded exploration of sink answers
-    let bound = if ctx.thorough() { 2 } else { 1 };
+    let bound = if ctx.thorough() { 3 } else { 2 };
     let mut b = Acc::new();
     let mut ex = json!({});
     for (si, s) in subs_.iter().enumerate().take(if ctx.thorough() { subs_.len() } else { 3 }) {
@@ -334,7 +346,7 @@ pub fn run(ctx: &Ctx) -> i32 {
     reports.push(SubReport::new("read-chunks", "C", "Package::parse / PackageMetadata::parse from a BufRead source returning at most k bytes per fill_buf for every k in 1..=64 and unlimited; input truncated at EVERY offset (with 1-byte, 5-byte and unlimited reads). Oracle: same value however reads are split; truncation before the payload offset ⇒ Err, after ⇒ Ok with the truncated payload and equal metadata", c));
 
     // ---- reading: deviation-bounded exploration of source answers
-    let rbound = if ctx.thorough() { 2 } else { 1 };
+    let rbound = if ctx.thorough() { 3 } else { 2 };
     let mut d = Acc::new();
     let mut rex = json!({});
     for s in subs_.iter().take(if ctx.thorough() { subs_.len() } else { 2 }) {
@@ -376,7 +388,7 @@ pub fn run(ctx: &Ctx) -> i32 {
         reports,
         &[
             "sinks and sources obey the Write / BufRead contracts (a sink that returns Ok(n) has taken exactly n bytes)",
-            "deviation bound for the answer exploration: 1 (quick) / 2 (thorough); fixed chunk sizes 1..=64 and failure at every offset are complete",
+            "deviation bound for the answer exploration: 2 (quick) / 3 (thorough); fixed chunk sizes 1..=64 and failure at every offset are complete",
         ],
         vec![],
     )
